@@ -2,9 +2,9 @@
    Same case lines and the same leg layout as props/C14/harness.cpp. *)
 let ty_of = function
   | "i8" -> i8 | "u8" -> u8 | "i16" -> i16 | "u16" -> u16 | "i32" -> i32 | "u32" -> u32
-  | "i64" | "ill" -> i64 | "u64" | "ull" -> u64
+  | "c8" -> i8 | "i64" | "ill" -> i64 | "u64" | "ull" -> u64
   | _ -> raise Not_found
-let is_fixed = function "i8" | "u8" | "i16" | "u16" | "i32" | "u32" | "i64" | "u64" -> true | _ -> false
+let is_fixed = function "i8" | "u8" | "i16" | "u16" | "i32" | "u32" | "i64" | "u64" | "ill" | "ull" -> true | _ -> false
 let uty_of s = let t = ty_of s in if t.sgn then raise Not_found else t
 
 let zi = z_of_int
@@ -60,6 +60,23 @@ let rec run_one op t : string * string =
                  zb (test_bit_spec word pos); str_of_z (assign_bit_spec word pos false); str_of_z (assign_bit_spec word pos true) ]
         else "na" in
       (m, s)
+  | "tbit" ->
+      let ut = uty_of (next_str t) in
+      let w = ut.bits in
+      let word = next_z t in
+      let pos = next_z t in
+      (* None = the instantiation does not compile (static_assert) *)
+      let oz = function Some r -> rz r | None -> "static_assert" in
+      let ob = function Some r -> rb r | None -> "static_assert" in
+      let comps = [ oz (set_bit_tpl_m w pos word); oz (reset_bit_tpl_m w pos word); oz (flip_bit_tpl_m w pos word);
+                    ob (test_bit_tpl_m w pos word); oz (assign_bit_tpl_m w pos word false);
+                    oz (assign_bit_tpl_m w pos word true) ] in
+      let m = if List.mem "static_assert" comps then "static_assert" else leg comps in
+      let s = if big_lt pos w then
+          join [ "ok"; str_of_z (set_bit_spec word pos); str_of_z (reset_bit_spec word pos); str_of_z (flip_bit_spec word pos);
+                 zb (test_bit_spec word pos); str_of_z (assign_bit_spec word pos false); str_of_z (assign_bit_spec word pos true) ]
+        else "na" in
+      (m, s)
   | "bswap" ->
       let ty = ty_of (next_str t) in
       let x = next_z t in
@@ -69,7 +86,7 @@ let rec run_one op t : string * string =
       (m, join ("ok" :: sv :: (if fb then [ sv ] else [])))
   | "hton" ->
       let ts = next_str t in
-      if not (List.mem ts [ "u8"; "i8"; "u16"; "u32" ]) then raise Not_found;
+      if not (List.mem ts [ "u8"; "i8"; "c8"; "u16"; "u32" ]) then raise Not_found;
       let ty = ty_of ts in
       let x = next_z t in
       let m = leg [ rz (hton_m ty.bits x); rz (ntoh_m ty.bits x) ] in
@@ -113,9 +130,10 @@ let rec run_one op t : string * string =
           let (q, r) = idiv_spec x y in
           if inty ty q then join [ "ok"; str_of_z q; str_of_z r ] else "na" in
       (m, s)
-  | "ipow" ->
+  | "ipow" | "ipowb" ->
       let ty = ty_of (next_str t) in
       let b = next_z t in let e = next_z t in
+      if op = "ipowb" && not (inty ty b) then ("no-instantiation", "na") else
       let s = if big_lt e Z0 then "na" else
           (* exact power, evaluated only while it can still be representable *)
           let bb = Big.abs (big_of_z b) in
@@ -129,7 +147,7 @@ let rec run_one op t : string * string =
           else
             let p = ipow_spec b e in
             if inty ty p then okz p else "na" in
-      (leg [ rz (ipow_m ty b e) ], s)
+      (leg [ rz (if op = "ipowb" then ipow_base_m ty b e else ipow_m ty b e) ], s)
   | "ipow2" ->
       let ty = ty_of (next_str t) in
       let e = next_z t in
